@@ -660,6 +660,9 @@ func runMatcherCall(kind, test, doc, form string, sortKeys bool, matchers []Matc
 	if kind == "sjson" {
 		spec.Filename = ""
 	}
+	if sortKeys && (len(doc)+len(matchers))%3 == 0 {
+		spec.Filename, spec.PkgLevel = "", true // package-level MatchJSON / MatchStandaloneJSON / MatchYAML
+	}
 	ft := newFakeT(test)
 	r := Call{API: api, Doc: BS(doc), Form: form, Matchers: matchers}.invoke(spec.build(root), ft)
 	ft.finish()
@@ -1056,6 +1059,9 @@ func checkC16(c c16Case) error {
 	if c.Kind == "sjson" {
 		spec.Filename = ""
 	}
+	if len(c.Test)%2 == 0 {
+		spec.Filename, spec.PkgLevel = "", true // package-level entry points
+	}
 	record := func(root string, n JNode) (string, error) {
 		newProcess(Mode{})
 		ft := newFakeT(c.Test)
@@ -1387,6 +1393,9 @@ func checkC17(c c17Case) error {
 	spec := CfgSpec{Dir: "snaps", Filename: "f"}
 	if c.Kind == "sjson" {
 		spec.Filename = ""
+	}
+	if c.ModeKind != "update_false" && len(c.Test)%2 == 0 {
+		spec.Filename, spec.PkgLevel = "", true // package-level entry points
 	}
 	doc := renderYAML(c.Tree) + c.Suffix
 	if c.Empty != nil {
